@@ -412,6 +412,10 @@ pub struct BloomCase {
     pub ops: Vec<BlOp>,
     /// statistical part: seed for n random hashes (0 = skip)
     pub fp_seed: u64,
+    /// structured false-positive measurement: ids placed exactly in the bits the filter uses as
+    /// its first hash (even ids added, odd ids probed)
+    #[serde(default)]
+    pub fp_aligned: bool,
 }
 
 pub fn bloom_strategy() -> BoxedStrategy<BloomCase> {
@@ -436,8 +440,9 @@ pub fn bloom_strategy() -> BoxedStrategy<BloomCase> {
         hashes,
         proptest::collection::vec(op, 1..80),
         prop_oneof![2 => Just(0u64), 1 => 1u64..u64::MAX],
+        proptest::bool::weighted(0.3),
     )
-        .prop_map(|(cap, rate_milli, hashes, ops, fp_seed)| BloomCase { cap, rate_milli, hashes, ops, fp_seed })
+        .prop_map(|(cap, rate_milli, hashes, ops, fp_seed, fp_aligned)| BloomCase { cap, rate_milli, hashes, ops, fp_seed, fp_aligned })
         .boxed()
 }
 
@@ -553,6 +558,43 @@ fn run_bloom_inner(c: &BloomCase) -> Result<CompFeats, String> {
         }
         feats.classes.push("fp_rate");
         feats.nontrivial = true;
+    }
+    // false-positive bound for hashes that differ only in the high bits the filter hashes on:
+    // ids in the top log2(bits) bits, low bits zero; even ids are added, odd ids probed
+    if c.fp_aligned {
+        let mut bl = sv::Bloom::new(c.cap, rate);
+        let (bits, _locs) = bl.params();
+        let e = 63 - bits.leading_zeros() as u64; // bits is a power of two
+        if (1..=40).contains(&e) {
+            let s = 64 - e;
+            let n = (c.cap as u64).min(1u64 << (e - 1)).min(4000);
+            for i in 0..n {
+                bl.add((2 * i) << s);
+            }
+            for i in 0..n {
+                if !bl.contains((2 * i) << s) {
+                    return Err(format!("[false_negative] cap {} rate {}: {:#x} added and reported absent", c.cap, rate, (2 * i) << s));
+                }
+            }
+            let mut fp = 0u64;
+            for i in 0..n {
+                if bl.contains((2 * i + 1) << s) {
+                    fp += 1;
+                }
+            }
+            let pm = rate * n as f64;
+            let bound = 4.0 * pm + 5.0 * pm.sqrt() + 8.0;
+            if fp as f64 > bound {
+                return Err(format!(
+                    "[false_positive_rate_high_bits] filter for {} entries at target rate {} ({} bits): after adding the {} hashes (2i) << {} , {} of the {} never-added hashes (2i+1) << {} are reported present (bound {:.0})",
+                    c.cap, rate, bits, n, s, fp, n, s, bound
+                ));
+            }
+            feats.classes.push("fp_high_bits");
+            if n >= 8 {
+                feats.nontrivial = true;
+            }
+        }
     }
     Ok(feats)
 }
